@@ -153,6 +153,11 @@ func randGeom(rng *rand.Rand, gtype gsgpkg.GeometryType, i int) (geom.Geometry, 
 			return geom.LineString{}, true, [4]int{}
 		}
 		return geom.LineString{{fx, fy}, {fx + fw, fy + fh}}, false, bb
+	case gsgpkg.GeometryCollection:
+		if empty {
+			return geom.Collection{}, true, [4]int{}
+		}
+		return geom.Collection{geom.Point{fx, fy}, geom.LineString{{fx, fy}, {fx + fw, fy + fh}}}, false, bb
 	case gsgpkg.MultiPoint:
 		if empty {
 			return geom.MultiPoint{}, true, [4]int{}
@@ -378,6 +383,15 @@ func normGeom(g geom.Geometry) interface{} {
 			return "EMPTY"
 		}
 		return [][2]float64(t)
+	case geom.Collection:
+		if len(t) == 0 {
+			return "EMPTY"
+		}
+		parts := []interface{}{}
+		for _, x := range t {
+			parts = append(parts, normGeom(x))
+		}
+		return fmt.Sprintf("COLLECTION%v", parts)
 	case geom.MultiLineString:
 		if len(t) == 0 {
 			return "EMPTY"
@@ -401,7 +415,7 @@ func gpkgCase(args []string) int {
 	fs.Parse(args)
 	rng := rand.New(rand.NewSource(*seed))
 	gtype := map[string]gsgpkg.GeometryType{"polygon": gsgpkg.Polygon, "multipolygon": gsgpkg.MultiPolygon, "point": gsgpkg.Point, "linestring": gsgpkg.Linestring,
-		"multipoint": gsgpkg.MultiPoint, "multilinestring": gsgpkg.MultiLinestring}[*gt]
+		"multipoint": gsgpkg.MultiPoint, "multilinestring": gsgpkg.MultiLinestring, "geometrycollection": gsgpkg.GeometryCollection}[*gt]
 	st := randTable(rng, "t"+itoa(rng.Intn(1000)), *count, gtype)
 	srcPath := filepath.Join(*dir, "src.gpkg")
 	tgtPath := filepath.Join(*dir, "tgt.gpkg")
